@@ -152,11 +152,17 @@ def run_harness(name, cases, procs=8):
             cp1 = os.path.join(d, "cases%d_%d.ndjson" % (i, j))
             op1 = os.path.join(d, "obs%d_%d.ndjson" % (i, j))
             write_ndjson(cp1, [c])
-            rc1, out1 = run_file(cp1, op1, limit=10)
+            rc1, out1 = run_file(cp1, op1, limit=20)
             if rc1 == 0:
                 recs.extend(read_ndjson(op1))
+            elif rc1 in (124, 137, -9):
+                # no answer and no end within 20 s of wall-clock time for ONE case (a healthy case takes
+                # milliseconds): the search did not come back within any reasonable step budget
+                recs.append({"case": c["id"], "k": "reset", "c": c})
+                recs.append({"case": c["id"], "k": "end", "kind": "budget", "n": 0, "after": [], "tick": 0,
+                             "msg": "killed: the case did not return within 20 s", "loc": "process"})
             else:
-                msg = (out1.strip().splitlines() or ["killed after 30 s" if rc1 in (124, 137) else "process died"])[-1][:200]
+                msg = (out1.strip().splitlines() or ["process died"])[-1][:200]
                 recs.append({"case": c["id"], "k": "reset", "c": c})
                 recs.append({"case": c["id"], "k": "end", "kind": "panic", "n": 0, "after": [], "tick": 0,
                              "msg": "harness process died: " + msg, "loc": "process"})
